@@ -300,6 +300,11 @@ class Rig:
         if hasattr(self.ex, "arrayer"):
             self.ex.arrayer._exit_flag = CtlEvent(self.ctl, ARR_WAIT, wake_on_set=True)
 
+    def _error(self, scratch, job, batch_job_metadata=None):
+        """fake parse_job_error (status processing of a FAILED cloud job): same injection point as _result"""
+        self._result(scratch, job)
+        return (RuntimeError("batch job failed"), NS(logs=None))
+
     def _result(self, scratch, job):
         """fake parse_job_result: the job's result exists — unless the environment has armed a transient cloud error"""
         if self.fault_armed:
@@ -349,7 +354,7 @@ class Rig:
         old = lambda i: self.old_status.get(int(i[3:])) if i.startswith("old") else None  # noqa: E731
         self._patch(m, "aws_describe_jobs", lambda ids, chunk_size=100, aws_region=None: iter(
             [{"jobId": i, "status": {"R": "RUNNING", "S": m.SUCCEEDED, "F": m.FAILED}[old(i)]} for i in ids if old(i) in ("R", "S", "F")]))
-        self._patch(m, "parse_job_error", lambda scratch, job, batch_job_metadata=None: (RuntimeError("batch job failed"), NS(logs=None)))
+        self._patch(m, "parse_job_error", self._error)
         self._patch(m, "parse_job_logs", lambda *a, **k: [])
         self._patch(m.aws_utils, "get_aws_user", lambda *a, **k: "u")
         self._patch(m, "submit_task", lambda image, queue, scratch, job, task, **kw: {"jobId": "b" + job.id, "jobName": "n"})
@@ -681,7 +686,12 @@ def oracle(ctx, case, rig, finished):
         ctx.violation(f"C10-{v}-monitor-crash", "a monitor thread failed: " + rig.sched.crashes[0], case,
                       expected="no reject_job(None, ...)", actual=rig.sched.crashes, kind="interleaving")
         ok = False
-    if not finished and not case.get("partial"):
+    if not finished and rig.fired and rig.sched.crashes:
+        # an injected cloud error fired and the scheduler was told (reject_job(None, error)): the workflow fails loudly; what
+        # the remaining threads do afterwards (e.g. a restarted monitor polling for a job stranded in the stopped arrayer)
+        # is outside the property
+        pass
+    elif not finished and not case.get("partial"):
         missing = sorted(set(range(rig.njobs)) - set(rep))
         stuck = bool(rig.queue()) and hasattr(rig.ex, "arrayer") and not rig.arr_alive()
         ctx.violation(f"C10-{v}-job-stuck-in-dead-arrayer" if stuck else f"C10-{v}-never-quiescent",
